@@ -4,8 +4,14 @@ from xvlib import log
 from props.common import *
 from props.vhmcommon import *
 
+_base_harnesses = harnesses
+def harnesses(tier):
+    return _base_harnesses(tier) + [('vhm', ('XV_RECL=GC',), False, '_gc')]
 HARNESSES = harnesses('quick')
-LEVEL = 'exploration'
+PROPERTY_FILES = ['Properties_C10_vhm', 'Properties_C10']
+THEOREM_NOTES = {
+    'scope': 'the theorems are about a step-level model of ONE bucket of vyukov_hash_map<long, long> (constant hash, no grow): 3 array slots + extension items with their free list and lock, bucket.state = the word GENERATED from the source (lock bit, version, item count, delete marker), emplace / get_or_emplace / erase / extract / lock-free try_get_value, for any number of threads, programs and schedules: lock discipline, structure when unlocked (abstract map = array pairs + chain pairs, keys distinct), chain and free list disjoint, the version rule (every step bumps the version or preserves what a reader may be standing on), writers linearize at the store that makes the change visible with the sequential result, and the main theorem: every completed try_get_value(k) has an instant inside the call at which the abstract map agreed with its answer (never absent for a key present throughout, never a value of another key). Hypothesis of the reader theorems: fewer than 2^27 version bumps (the 27-bit version field can wrap). Tied to the code by trace correspondence (mode ll, GC reclaimer, extension-bucket offset probed per run). Multi-bucket maps, grow, non-trivial key/value storage modes and the real reclaimers are covered by the search only',
+}
 ASSUMPTIONS = [
     'SC interleavings only; every explored history is checked exactly against the map specification (values included), plus a quiescent traversal and lock-free probes of every key',
     'writers spin on bucket locks: a thread whose reads see no change is descheduled until the lock word is written (xvrt spin detection)',
@@ -21,6 +27,11 @@ def run(ctx):
     thorough = tier == 'thorough'
     Hs = ctx['H']
     run_corpus(ctx, Hs['vhm_hp'], 'C10')
+    # ---- tie: the one-bucket model reproduces the implementation's traces
+    Hgc = Hs.pop('vhm_gc')
+    cases = list(VHM_FIXED) + [vhm_model_program(rng, iterators=False) for _ in range(8 if thorough else 4)]
+    st = vhm_correspondence(ctx, 'vhm', Hgc, cases, 8 if thorough else 5, 'vyukov_hash_map bucket')
+    tie = tie_broken_sig(st, 'vhm')
     n = 1500 if thorough else 200
     for name, H in sorted(Hs.items()):
         jobs = []
@@ -44,4 +55,4 @@ def run(ctx):
                 jobs.append(({'mode': mode, 'cap': '64', 'hash': 'const', 'init': '1.2.3.4.5.6'}, [w, r1, r2], 'dfs', n, ctx['seed'] + k, ('--pb', '2')))
             jobs.append(({'mode': mode, 'cap': '64', 'hash': 'const', 'init': '1.2.3.4.5.6'}, [['ext 6', 'del 5'], ['get 4', 'get 4'], ['get 5', 'get 4']], 'dfs', n, ctx['seed'], ('--pb', '2')))
         do_search(ctx, H, jobs, name, classify=lambda c, h, f, name=name: {'harness': name})
-    return None
+    return tie
